@@ -141,7 +141,16 @@ def run(ctx: Ctx):
         n = 90 if ctx.quick else 900
         cases = [X.gen_case(ctx.rng, "sqlite" if i % 3 == 2 else "duckdb") for i in range(n)]
     for case in cases:
-        for op, before, after, saved in X.run_ops(case):
+        try:
+            ops_done = X.run_ops(case)
+        except Exception as e:      # every generated call is inside the property's quantifier: it must not raise
+            if not getattr(ctx, "_raised_reported", False):
+                ctx._raised_reported = True
+                ctx.violation("a direct estimator raised on a generated input: " + repr(e)[:200],
+                              {"case": case, "implementation": repr(e)[:600], "specification": "estimates equal to the exact pair frequencies"},
+                              {"estimator": "any", "failure": "estimator raised", "backend": case["backend"], "link_type": case["link_type"]})
+            continue
+        for op, before, after, saved in ops_done:
             rows = X.rows_for(case, op)
             fails = X.oracle(case, op, rows, before, after)
             eterms.append(X.est_term(case, op, rows, before, after))
